@@ -68,6 +68,7 @@ pub fn run_case(ctx: &mut CaseCtx) -> CaseResult {
         match rng.below(12) {
             0 if !cfg.wmode.is_async() => ops.push(HOp::Flush),
             1 if !cfg.wmode.is_async() && rng.chance(1, 3) => ops.push(HOp::Trigger),
+            2 if !cfg.wmode.is_async() && rng.chance(1, 4) => ops.push(HOp::Reopen),
             _ => {
                 let ll = *rng.pick(&line_lens);
                 ops.push(HOp::Write(*rng.pick(&LEVELS), ll.saturating_sub(le)));
